@@ -34,7 +34,12 @@ JudgeIterate(e) == e.out.k = "ok" /\ It!IterOK(e.args.toks, e.args.steps, e.out.
 JudgeEncodeBig(e) == /\ e.out.k = "ok"
                      /\ LET r == DecodeV(e.out.mappings, e.args.nsrc, e.args.nnm) IN
                         r.k = "ok" /\ VToksEq(r.toks, e.args.vtoks)
+\* a sink that fails at byte `at` < len: the failure is reported (Ok would claim a complete document the sink does not hold),
+\* and what the sink did take is a prefix of the serialised form
+JudgeEncodeFail(e) == /\ e.out.k = "ok" /\ e.out.prefix_ok /\ e.out.delivered <= e.args.at
+                      /\ (e.args.at < e.args.len => e.out.res = "err")
 Judge(e) == CASE e.op = "roundtrip" -> JudgeRoundTrip(e)
+              [] e.op = "encode_fail" -> JudgeEncodeFail(e)
               [] e.op = "encode_big" -> JudgeEncodeBig(e)
               [] e.op = "encode" -> JudgeEncode(e)
               [] e.op = "lookups" -> JudgeLookups(e)
